@@ -307,13 +307,17 @@ class Interp:
             return lv
         raise _Abort(UNDEFINED, f'unknown expression {k}')
 
-    def make_array(self, lit, t, frame, types):
-        """Array literal evaluated at element type t[1], left to right."""
+    def make_array(self, lit, t, frame, types, explicit=False):
+        """Array literal evaluated at element type t[1], left to right.  explicit: `[..] is T[]`
+        casts every element (to bool: truthiness, a strict 0/1)."""
         el = t[1]
         items = []
         for x in lit[1]:
             tx = self.typer.typ(x, types)
-            items.append(self.conv(self.ev(x, frame, types), tx, el))
+            if explicit and el == 'bool' and tx != 'bool':
+                items.append(1 if self.truth(x, frame, types) else 0)
+            else:
+                items.append(self.conv(self.ev(x, frame, types), tx, el))
         return Arr(el, items)
 
     def ev_as(self, e, t, frame, types):
@@ -324,7 +328,7 @@ class Interp:
             return self.make_array(e, t, frame, types)
         if e[0] == 'is' and is_arr(e[2]) and e[1][0] == 'arr':
             self.tick()
-            return self.make_array(e[1], e[2], frame, types)
+            return self.make_array(e[1], e[2], frame, types, explicit=True)
         te = self.typer.typ(e, types)
         return self.conv(self.ev(e, frame, types), te, t)
 
@@ -379,7 +383,7 @@ class Interp:
         inner = e[1]
         if is_arr(t):
             if inner[0] == 'arr':
-                return self.make_array(inner, t, frame, types)
+                return self.make_array(inner, t, frame, types, explicit=True)
             ft = self.typer.typ(inner, types)
             return self.conv(self.ev(inner, frame, types), ft, arr(t[1], True))
         ft = self.typer.typ(inner, types)
